@@ -232,6 +232,12 @@ def run_case(case):
                     if v == V.TLS13:
                         scn["tickets"] = 1
                     one(scn, {"layer": "A", "class": class_name(v, code, etm, hs), "suite": f"{code:#06x}"})
+                    if v == V.TLS12 and sp.mode in ("GCM", "CCM"):
+                        # the explicit part of the nonce is the sender's choice (RFC 5288 section 3): random bytes, a counter
+                        # that does not start at 0, a counter with the high bits set
+                        for pol in ("random", "from1", "high"):
+                            one(dict(scn, explicit_nonce=pol), {"layer": "A", "class": class_name(v, code, etm, hs), "suite": f"{code:#06x}",
+                                                                "explicit_nonce": pol})
     elif layer == "B":
         v, code, etm, hs = case["v"], case["suite"], case["etm"], case["hs"]
         lens = [0, 1, boundary_len(code, etm), 300]
